@@ -521,7 +521,7 @@ func discharge(u *Unit, o *Obligation, workDir string, timeout int, known []Know
 			default:
 				done := false
 				for depth := 1; depth <= 2 && !done; depth++ {
-					rr := runQuery(workDir, fmt.Sprintf("%s.rel%d", o.Name, depth), relevantQuery(q, depth), 5, false)
+					rr := runQuery(workDir, fmt.Sprintf("%s.rel%d", o.Name, depth), relevantQuery(q, depth), timeout, false)
 					if rr.Status == "unsat" {
 						o.Result = rr
 						o.Result.Solver += fmt.Sprintf(" (assumptions within %d step(s) of the goal)", depth)
